@@ -143,9 +143,10 @@ Print Assumptions C04_ed25519_roundtrip_partial.
 (* ... in particular over Z/(2^255-19), given that 2^255-19 is prime (no zero
    divisors); and decode (encode P) = P as soon as the decoder does not refuse
    (the square-root premise: the candidate root is a root whenever one exists).
-   FULL STATEMENT NOT PROVED: forall curve points (x,y),
-   ed25519_decode (ed_encode_xy x y) = Ok (x,y) -- missing: primality of
-   2^255-19 and correctness of the exponentiation-based root extraction. *)
+   The FULL statement - forall curve points (x,y),
+   ed25519_decode (ed_encode_xy x y) = Ok (x,y) - is proved at the end of this
+   file (C04_ed25519_roundtrip), with primality of 2^255-19 and the correctness
+   of the exponentiation-based root extraction proved in CurveRef/EdDecode.v. *)
 Theorem C04_ed25519_roundtrip_Zp_partial :
   Znumtheory.prime ed_p ->
   forall x y : zq ed_p,
@@ -314,3 +315,27 @@ Example C04_nonvacuous :
   p256_decode (OW p256) p256 (faW p256) (4 :: be_bytes 32 1 ++ be_bytes 32 1) = Err /\
   schnorr_split 2 1 [7; 8; 9] = Ok ([7; 8], [9]).
 Proof. vm_compute. repeat split; intro; discriminate. Qed.
+
+(* --- the statements left `_partial` above, now without premises: 2^255-19 is
+   PROVED prime (Pocklington certificate) and the exponentiation-based root
+   extraction is proved correct (CurveRef/EdDecode.v). *)
+From Kyber Require Import CurveRef.EdComplete CurveRef.EdDecode.
+
+(* every point of the curve round-trips through its encoding *)
+Theorem C04_ed25519_roundtrip : forall x y : zq ed_p,
+    fmul OEd (fmul OEd x x) (fadd OEd (fmul OEd (fmul OEd y y) (c_d KEd)) (f1 OEd)) = fsub OEd (fmul OEd y y) (f1 OEd) ->
+    ed25519_decode OEd KEd (ed_encode_xy OEd x y) = Ok (ed_of_xy OEd x y).
+Proof. exact Ed25519_roundtrip_C04. Qed.
+Print Assumptions C04_ed25519_roundtrip.
+
+(* whatever the decoder accepts re-encodes to something it decodes to the same point *)
+Theorem C04_ed25519_decode_reencode : forall s P,
+    ed_decode OEd KEd s = Some P -> ed_decode OEd KEd (ed_encode OEd P) = Some P.
+Proof. exact Ed25519_decode_reencode. Qed.
+Print Assumptions C04_ed25519_decode_reencode.
+
+(* the variable-time Edwards decoder accepts only curve points *)
+Theorem C04_edv_accepts_only_curve_points : forall s P,
+    edv_decode OEd KEd s = Ok P -> ed_on_curve OEd (ed_a OEd) (c_d KEd) P.
+Proof. exact Ed25519_edv_accepts_only_curve_points. Qed.
+Print Assumptions C04_edv_accepts_only_curve_points.
